@@ -286,6 +286,13 @@ Proof.
   destruct c; reflexivity.
 Qed.
 
+Theorem old_roundtrip_notin p :
+  valid_peer p = true -> ~ In 58%N (i_ip (fst p)) -> deserialize_old (serialize p) = Some p.
+Proof.
+  intros Hv Hn. apply old_roundtrip_nocolon; [exact Hv|]. unfold nocolon. apply Forall_forall.
+  intros x Hx ->. contradiction.
+Qed.
+
 Theorem old_drops_colon p :
   valid_peer p = true -> In 58%N (i_ip (fst p)) -> deserialize_old (serialize p) = None.
 Proof.
